@@ -830,6 +830,9 @@ Proof.
   split; [auto|]. split; [auto|]. split; [auto|]. split; [intros r0 X; eauto|]. left. congruence.
 Qed.
 
+Lemma past_not_adopt : forall p, past_loop p = true -> is_adopt p = true -> False.
+Proof. intros p. destruct p as [| | | | |a|a|]; try discriminate; destruct a; discriminate. Qed.
+
 Lemma inv_update : forall strict W s s' j r',
   wf W = true -> Inv W s -> (j < njobs W)%nat ->
   jobs s' = upd (jobs s) j r' ->
@@ -870,7 +873,8 @@ Proof.
   { intros k D. destruct (Nat.eq_dec k j) as [->|N]; [rewrite ATJ; auto|rewrite SAME; auto]. }
   assert (SPW : forall k, spawned (pc (jobs s k)) = true -> spawned (pc (jobs s' k)) = true).
   { intros k D. destruct (Nat.eq_dec k j) as [->|N]; [rewrite ATJ; auto|rewrite SAME; auto]. }
-  split; [|intros k; destruct (Nat.eq_dec k j) as [->|N]; [rewrite ATJ; repeat split; auto|rewrite SAME; repeat split; auto]].
+  split; [|intros k; destruct (Nat.eq_dec k j) as [->|N]; [rewrite ATJ; repeat split; auto|rewrite SAME; repeat split; auto];
+           intros E P; destruct (SE E) as [X|X]; auto; exfalso; eapply past_not_adopt; eauto].
   constructor.
   - intros x. unfold jl. destruct (Nat.eq_dec x j) as [->|N]; [rewrite ATJ; auto|rewrite SAME; auto; apply (I_loc I)].
   - intros x G. rewrite SAME; [apply (I_out I); auto|lia].
@@ -905,7 +909,9 @@ Proof.
     + rewrite ATJ. fold r. split.
       * intros [(P & D)|(_ & P & NP & D)].
         -- split; [auto|]. pose proof (l_A (I_loc I j) P) as F. fold r in F.
-           destruct (st r) eqn:S; simpl in F; try discriminate; [exfalso; auto|]. rewrite SE; auto; discriminate.
+           destruct (st r) eqn:S; simpl in F; try discriminate; [exfalso; auto|].
+           destruct (SE eq_refl) as [X|X]; [rewrite X; discriminate|].
+           exfalso; eapply past_not_adopt; eauto.
         -- split; auto.
       * intros (P & D). destruct (past_loop (pc r)) eqn:PR.
         -- left. split; auto; intros D'; apply D; auto.
